@@ -239,7 +239,10 @@ func init() {
 				keys, whats := c12Exec(r, k)
 				b, _ := json.Marshal(k)
 				r.Eval(vf.Hash(string(b)), k.SinkAt >= 0 || k.Prod != "")
-				r.State(vf.Hash("shape", fmt.Sprint(k.Shape), fmt.Sprint(k.Second)))
+				// state space: (shape, render number) --fault--> (shape, render number, fault position); one transition per fault
+				from := vf.Hash("shape", fmt.Sprint(k.Shape), fmt.Sprint(k.Second))
+				r.Transition(from, string(b), vf.Hash("after", fmt.Sprint(k.Shape), fmt.Sprint(k.Second), fmt.Sprint(k.SinkAt), k.Prod, fmt.Sprint(k.ProdHow)))
+				r.TraceValidated()
 				if i%20011 == 0 {
 					r.Sample(k)
 				}
